@@ -55,30 +55,44 @@ def radiogenics(b):
     loop = loops[0]
     pre_stmts = fn.node.body[:fn.node.body.index(loop)]
     post_stmts = fn.node.body[fn.node.body.index(loop) + 1:]
-    # loop header: zip of the four tables in the order (mass_frac, concentration, halflife, heat_production)
-    hdr_ok = (ast.unparse(loop.iter) == "zip(iso_massfracs_of_isotope, iso_element_concentrations, iso_halflives, iso_heat_production)"
-              and ast.unparse(loop.target) == "(mass_frac, concentration, halflife, heat_production_rate)")
-    names4 = {"iso_massfracs_of_isotope", "iso_element_concentrations", "iso_halflives", "iso_heat_production"}
-    recognised = isinstance(loop.iter, ast.Call) and ast.unparse(loop.iter.func) == "zip" and len(loop.iter.args) == 4 and {ast.unparse(a_) for a_ in loop.iter.args} == names4 \
-        and isinstance(loop.target, ast.Tuple) and len(loop.target.elts) == 4
-    structural(b, f"{fn.key}::loop_header", fn.key, "loop iterates the four isotope tables in lock-step, bound to (f, c, tau, q)", "ok" if hdr_ok else ("wrong" if recognised else "unknown"),
+    # loop header: zip of the four tables; the loop variables are bound BY POSITION to the table they iterate (names and order are free)
+    names4 = ["iso_massfracs_of_isotope", "iso_element_concentrations", "iso_halflives", "iso_heat_production"]
+    recognised = isinstance(loop.iter, ast.Call) and ast.unparse(loop.iter.func) == "zip" and len(loop.iter.args) == 4 and all(isinstance(a_, ast.Name) for a_ in loop.iter.args) \
+        and isinstance(loop.target, ast.Tuple) and len(loop.target.elts) == 4 and all(isinstance(e_, ast.Name) for e_ in loop.target.elts)
+    hdr_ok = recognised and sorted(a_.id for a_ in loop.iter.args) == sorted(names4)
+    structural(b, f"{fn.key}::loop_header", fn.key, "loop iterates the four isotope tables in lock-step, one loop variable per table", "ok" if hdr_ok else ("wrong" if recognised else "unknown"),
                detail=ast.unparse(loop.iter) + " -> " + ast.unparse(loop.target))
-    # init
-    fr, ex, paths = run_fragment(b, fn, [s for s in pre_stmts if not (isinstance(s, ast.Expr) and isinstance(s.value, ast.Constant))], "init", dict(time=t), [], globals_env=genv)
-    if paths:
-        ensure(b, fr, "sum_starts_at_zero", paths, lambda p: sp.Eq(p.env["total_specific_heating"], 0), clause="invariant init: total == 0 (empty sum)")
-    # step (generic iteration k)
+    if not hdr_ok:
+        return
     S, f, c, tau, q = R("total_k"), R("f_k"), R("c_k"), R("tau_k"), R("q_k")
+    sym_of_table = dict(zip(names4, (f, c, tau, q)))
+    loop_vars = {e_.id: sym_of_table[a_.id] for e_, a_ in zip(loop.target.elts, loop.iter.args)}
+    # the accumulator: the one name stored both before the loop and inside it
+    stored = lambda stmts: {n_.id for s_ in stmts for n_ in ast.walk(s_) if isinstance(n_, ast.Name) and isinstance(n_.ctx, ast.Store)}
+    acc = sorted(stored(pre_stmts) & stored(loop.body))
+    if len(acc) != 1:
+        structural(b, f"{fn.key}::accumulator", fn.key, "one accumulator is initialised before the loop and updated inside it", "unknown", detail=str(acc))
+        return
+    acc = acc[0]
+    params = dict(time=t, ref_time=tref, mass=mass)
+    # init: the statements before the loop (also binds loop-invariant temporaries)
+    prelude = [s for s in pre_stmts if not (isinstance(s, ast.Expr) and isinstance(s.value, ast.Constant))]
+    fr, ex, paths = run_fragment(b, fn, prelude, "init", dict(params), [], globals_env=genv)
+    carried = {}
+    if paths:
+        ensure(b, fr, "sum_starts_at_zero", paths, lambda p: sp.Eq(p.env[acc], 0), clause="invariant init: total == 0 (empty sum)")
+        if len(paths) == 1:
+            carried = {k_: v_ for k_, v_ in paths[0].env.items() if k_ in stored(prelude) and k_ != acc}
+    # step (generic iteration k)
     prek = [sp.Gt(tau, 0)]
     term = f * c * q * T.exp_(LOG_HALF * (t - tref) / tau)
-    fr, ex, paths = run_fragment(b, fn, loop.body, "step", dict(total_specific_heating=S, mass_frac=f, concentration=c, halflife=tau,
-                                                              heat_production_rate=q, time=t, ref_time=tref), prek, globals_env=genv)
+    fr, ex, paths = run_fragment(b, fn, loop.body, "step", dict(params, **carried, **{acc: S}, **loop_vars), prek, globals_env=genv)
     if paths:
         # a `continue` ends the iteration like falling off the end of the body: the invariant must hold there too
         for p_ in paths:
             if p_.outcome == "continue":
                 p_.outcome = "return"
-        ensure(b, fr, "invariant_step", paths, lambda p: sp.Eq(p.env["total_specific_heating"], S + term), prek,
+        ensure(b, fr, "invariant_step", paths, lambda p: sp.Eq(p.env[acc], S + term), prek,
                clause="invariant step: total' == total + f_k c_k q_k exp(ln(1/2) (t - t_ref)/tau_k) (also on iterations ended by `continue`)")
         # an early `break` drops every later isotope: with a generic table that breaks the postcondition, so such a path must be infeasible
         for i_, p_ in enumerate(paths):
@@ -86,7 +100,7 @@ def radiogenics(b):
                 b.add(Obligation(oid=f"{fr.key}::no_early_exit@path{i_}", fn=fr.key, clause="the isotope loop is never left early (a `break` would drop the contributions of all later isotopes): the path must be infeasible",
                                  goal=sp.false, hyps=list(prek) + p_.hyps, meta=dict(path_condition=[str(c_) for c_ in p_.pc])))
     # exit: heating = total * mass
-    fr, ex, paths = run_fragment(b, fn, post_stmts, "exit", dict(total_specific_heating=S, mass=mass), [], globals_env=genv)
+    fr, ex, paths = run_fragment(b, fn, post_stmts, "exit", dict(params, **carried, **{acc: S}), [], globals_env=genv)
     if paths:
         ensure(b, fr, "mass_weighted", paths, lambda p: sp.Eq(p.value, S * mass), clause="ensures result == mass * sum (linear in mass)")
     # consequences on unrolled tables (n = 1, 2): reference value, half-life, additivity, linearity in concentration
